@@ -5,6 +5,7 @@ use std::time::{Duration, Instant};
 use crate::orch::{conclude, run_workers, CheckSpec, Ctx, Out, Tier, WorkerPlan};
 
 pub mod c01;
+pub mod seqchecks;
 
 pub struct Check {
     pub spec: CheckSpec,
@@ -17,6 +18,11 @@ pub struct Check {
 pub fn get(id: &str) -> Option<Check> {
     match id {
         "C01" => Some(c01::check()),
+        "C02" => Some(seqchecks::check("C02")),
+        "C05" => Some(seqchecks::check("C05")),
+        "C12" => Some(seqchecks::check("C12")),
+        "C13" => Some(seqchecks::check("C13")),
+        "C19" => Some(seqchecks::check("C19")),
         _ => None,
     }
 }
